@@ -573,12 +573,12 @@ func TestC17Enum(t *testing.T) {
 }
 
 // TestC17EnumSlowHandler: the context is cancelled while a handler is at work, and the handler goes on
-// for seconds of real time (2.5 s in quick, 32 s in thorough - longer than the accept and read deadlines
+// for seconds of real time (2.5 s in quick, 47 s in thorough - longer than the accept and read deadlines
 // the server arms and than any patience a shutdown path is likely to have).
 func TestC17EnumSlowHandler(t *testing.T) {
 	hold := 2500
 	if os.Getenv("VERIF_TIER") == "thorough" {
-		hold = 32000
+		hold = 47000
 	}
 	for _, ref := range []bool{false, true} {
 		c := c17Case{Conns: []c17Conn{{Ops: []c17Op{{Kind: "pkt", Pieces: 1}}}, {Ops: []c17Op{{Kind: "pkt", Pieces: 1, Hold: true}}}, {}}, Cancel: "in-handler", Target: 1, HoldMs: hold, Ref: ref}
